@@ -12,11 +12,22 @@ def canon_exc_rows(view):
         yield tuple(('!exc', type(x).__name__) if isinstance(x, Exception) else x for x in r)
 
 
+def fresh(v):
+    """an object equal to v but (where CPython allows) not identical with it, so that `is` and `==` can be told apart"""
+    if isinstance(v, str) and len(v) >= 2:
+        return ''.join(list(v))
+    if isinstance(v, float):
+        return float(repr(v))
+    if isinstance(v, tuple):
+        return tuple(fresh(x) for x in v)
+    return v
+
+
 def call_transform(arg):
     import petl as etl
     nm = arg[0]
     a = arg[1:]
-    L = lambda t: [list(r) for r in t]
+    L = lambda t: [[fresh(c) for c in r] for r in t]
     if nm == 'cut':
         spec, missing, t = a
         return etl.cut(L(t), *spec, missing=missing)
@@ -166,9 +177,10 @@ class C12(Prop):
             yield Case('transform', ('suffixheader', '_s', t))
             yield Case('transform', ('sortheader', False, missing, t))
             rect = self._table(rng, ragged=False)
-            yield Case('transform', ('filldown', rng.choice([(), ('k',), ('a', 'v')]), rng.choice([None, None, 'x']), rect))
-            yield Case('transform', ('fillright', rng.choice([None, None, 'x']), t))
-            yield Case('transform', ('fillleft', rng.choice([None, None, 'x']), t))
+            yield Case('transform', ('filldown', rng.choice([(), ('k',), ('a', 'v')]), rng.choice([None, None, 'x', 'xy']), rect))
+            yield Case('transform', ('fillright', rng.choice([None, None, 'x', 'xy']), t))
+            yield Case('transform', ('fillleft', rng.choice([None, None, 'x', 'xy']), t))
+            yield Case('reshape', ('columns', missing, t2))       # (unique field names)
             cs = rng.choice([(('a', ('fn', 0)),), (('a', ('fn', 0)), ('v', ('fn', 2))), ((1, ('fn', 0)),),
                              (('k', ('dict', ((1, 'one'), ('x', 'X')))),), (('v', ('fn', 6)),), (('a', None), ('v', ('fn', 5))),
                              (('zz', ('fn', 0)),)])
@@ -182,10 +194,12 @@ class C12(Prop):
 
     def impl(self, case):
         try:
-            if case.op == 'reshape':      # dicts(): asdict pads short rows with `missing` and trims long ones
+            if case.op == 'reshape':      # dicts() / columns(): short rows are padded with `missing`, long ones trimmed
                 import petl as etl
                 _nm, missing, t = case.arg
                 from ..core import obs_call
+                if _nm == 'columns':
+                    return obs_call(lambda: [(k, list(v)) for k, v in etl.columns([list(r) for r in t], missing=missing).items()])
                 return obs_call(lambda: [list(d.items()) for d in etl.dicts([list(r) for r in t], missing=missing)])
             if case.op == 'addfields':
                 import petl as etl
@@ -211,6 +225,14 @@ class C12(Prop):
     def spec(self, case, impl_obs, model_obs):
         """one output row per input row, in input order, for the 1:1 transforms; cells outside the requested fields
         carried over unchanged (checked independently of the model for cut/addfield/convert)."""
+        if case.op == 'reshape' and case.arg[0] == 'columns' and impl_obs[0] == 'li':
+            _nm, missing, t = case.arg
+            flds = list(t[0])
+            if len(set(flds)) != len(flds):
+                return None
+            want = [('tu', (codec.canon(f), ('li', tuple(codec.canon(r[i] if i < len(r) else missing) for r in t[1:]))))
+                    for i, f in enumerate(flds)]
+            return impl_obs == ('li', tuple(want))
         if case.op == 'reshape' and impl_obs[0] == 'li':
             # every record has exactly the header's fields, in order, with the row's cells (padded / trimmed)
             _nm, missing, t = case.arg
